@@ -24,7 +24,7 @@ func init() {
 }
 
 const c14Positions = 48 // cancellation positions per workload (plans are shorter)
-const c14APIKinds = 23
+const c14APIKinds = 24
 
 func genC14(seed uint64, tier string) *Plan {
 	// the driver hands out sequential seeds for this property: workload = seed / positions,
@@ -37,6 +37,9 @@ func genC14(seed uint64, tier string) *Plan {
 	p.SK["router"] = []string{"gossipsub", "gossipsub", "floodsub", "randomsub"}[r.intn(4)]
 	p.Knobs["ntopics"] = 2
 	p.Knobs["discovery"] = float64(b2i(r.chance(0.4)))
+	if p.Knobs["discovery"] == 1 && r.chance(0.4) {
+		p.Knobs["many_topics"] = float64(r.rng(33, 45)) // more joined topics without peers than the discovery queue has slots
+	}
 	if r.chance(0.25) {
 		p.Knobs["p_open_fail"] = []float64{0.15, 0.4, 0.8}[r.intn(3)] // stream opens that fail or are slow
 	}
@@ -89,6 +92,9 @@ func genC14(seed uint64, tier string) *Plan {
 		case x < 3:
 			// more concurrent publications than the hand-off channel to the event loop has slots
 			add("storm", int64(r.intn(2)), int64(r.rng(33, 40)))
+		case x < 6:
+			// more inbound RPCs at once than the hand-off channel from the stream handlers has slots
+			add("inbound-storm", i, int64(r.rng(34, 70)))
 		case x < 60:
 			add("api", int64(r.intn(c14APIKinds)), int64(r.intn(2)), int64(r.intn(4)))
 		case x < 68:
@@ -160,6 +166,13 @@ func runC14(s *sim) {
 	}
 	n := w.n
 	ps := n.ps
+	if k := p.ki("many_topics", 0); k > 0 {
+		s.probe("many_joined_topics_without_peers")
+		for j := 0; j < k; j++ {
+			name := fmt.Sprintf("lonely-%d", j)
+			s.do("Join "+name, func() any { _, err := ps.Join(name); return err })
+		}
+	}
 	var calls []*c14Call
 	cancelled := false
 	var cancelAt time.Duration
@@ -427,6 +440,25 @@ func runC14(s *sim) {
 				id, _ := peer.IDFromPrivateKey(k)
 				return t.Publish(context.Background(), data, WithLocalPublication(a2%2 == 0), WithSecretKeyAndPeerId(k, id))
 			}
+		case 22:
+			// on a handler that already exists (kind 10 creates its own): after the shutdown several
+			// calls meet the same handler
+			name = "NextPeerEvent (existing handler)"
+			ctx, cancel := context.WithCancel(context.Background())
+			cc.ownCtx, cc.consumer = cancel, true
+			f = func() any {
+				s.mu.Lock()
+				var h *TopicEventHandler
+				if len(handlers) > 0 {
+					h = handlers[int(a2)%len(handlers)]
+				}
+				s.mu.Unlock()
+				if h == nil {
+					return nil
+				}
+				_, err := h.NextPeerEvent(ctx)
+				return err
+			}
 		default:
 			name = "TopicEventHandler.Cancel"
 			f = func() any {
@@ -474,6 +506,16 @@ func runC14(s *sim) {
 		}
 	}
 	w.extraOps["api"] = func(it Item) { issue(int(it.a(0))%c14APIKinds, it.a(1), it.a(2)) }
+	w.extraOps["inbound-storm"] = func(it Item) {
+		fp := w.fake(int(it.a(0)))
+		if fp == nil || !fp.outAlive() {
+			return
+		}
+		s.probe("inbound_storm")
+		for k := int64(0); k < it.a(1); k++ {
+			fp.send(rpcIHave(w.topicName(k%2), fmt.Sprintf("storm-%d-%d", it.a(1), k)))
+		}
+	}
 	w.extraOps["storm"] = func(it Item) {
 		s.probe("publish_storm")
 		for k := int64(0); k < it.a(1); k++ {
@@ -538,11 +580,22 @@ func runC14(s *sim) {
 	pos := p.ki("cancel_pos", 0)
 	step := 0
 	midEvent := false
+	midTimer := false
 	w.beforeItem = append(w.beforeItem, func(it Item) {
 		if step == pos {
 			switch {
 			case p.kb("cancel_mid_call") && it.Op == "api":
 				midCall = true // the api item itself performs the shutdown, in the middle of the call
+			case p.kb("cancel_mid_call") && it.Op == "adv":
+				// time passes: the loop is parked on the first request a timer hands it (heartbeat,
+				// discovery poll, retry), the context is cancelled, then the loop is released
+				// (or, as for every wire-level item, on the first peer / stream / wire event that falls
+				// into the interval: whichever the loop meets first)
+				midTimer = true
+				s.mu.Lock()
+				armed = true
+				armedEvent = true
+				s.mu.Unlock()
 			case p.kb("cancel_mid_call") && it.Op != "release" && it.Op != "stall":
 				// a wire-level item: the loop is parked on the first peer / stream / wire event this
 				// item causes, the context is cancelled, then the loop is released
@@ -557,6 +610,30 @@ func runC14(s *sim) {
 		step++
 	})
 	w.afterItem = append(w.afterItem, func(it Item) {
+		if midTimer {
+			midTimer = false
+			s.mu.Lock()
+			armed = false
+			armedEvent = false
+			s.mu.Unlock()
+			var lg *gate
+			for _, g := range s.parkedGates() {
+				if strings.HasPrefix(g.id, "loop-request") || strings.HasPrefix(g.id, "loop-event") {
+					lg = g
+				}
+			}
+			if lg != nil && strings.HasPrefix(lg.id, "loop-request") {
+				s.probe("cancel_while_timer_request_waits")
+			} else if lg != nil {
+				s.probe("cancel_mid_event/adv")
+			}
+			shutdown()
+			if lg != nil {
+				s.release(lg, 0)
+				s.settle()
+			}
+			return
+		}
 		if !midEvent {
 			return
 		}
@@ -586,7 +663,7 @@ func runC14(s *sim) {
 		for k := 0; k < c14APIKinds; k++ {
 			issue(k, int64(k%2), int64(k))
 		}
-		for _, k := range []int{7, 7, 1, 3, 5, 10, 19} {
+		for _, k := range []int{7, 7, 1, 3, 5, 10, 19, 22, 22, 22} {
 			issue(k, 0, int64(k))
 		}
 		// more publications than the hand-off channel to the event loop has slots (32)
